@@ -104,7 +104,11 @@ class C19(Prop):
     title = 'RPC proxy: exact amounts, Core-style hash endianness, faithful error mapping'
     lean_targets = ['BtcVerif.Props.C19']
     table_groups = ['Rpc']
-    theorems = ['BtcVerif.C19.' + t for t in ()]
+    theorems = ['BtcVerif.C19.' + t for t in (
+        'amount_in_exact', 'amount_in_exact_int', 'hex_transport', 'transport_de', 'b2lx_is_core_form',
+        'hash_roundtrip_bytes', 'hash_roundtrip_text', 'hash_roundtrip', 'lx_accepts', 'error_reply_raises',
+        'class_of_int_code', 'class_of_registered', 'class_of_odd_codes', 'no_result_without_result',
+        'method_error_never_result', 'ids_gt_counter', 'ids_strictly_increase', 'ids_of_calls')]
     anchors = [('bitcoin/rpc.py', 'JSONRPCError.__new__'), ('bitcoin/rpc.py', 'BaseProxy._call'),
                ('bitcoin/rpc.py', 'BaseProxy._batch'), ('bitcoin/rpc.py', 'BaseProxy._get_response'),
                ('bitcoin/rpc.py', 'unhexlify_str'), ('bitcoin/rpc.py', 'hexlify_str'),
@@ -274,6 +278,7 @@ class C19(Prop):
                 yield mk('c19.unhex', h, tag='unhex')
                 if len(h) % 2 == 0 and all(c in '0123456789abcdefABCDEF' for c in h):
                     yield mk('c19.b2lx', h.lower(), tag='b2lx')
+                    yield mk('c19.hex', h.lower(), tag='hex')
         for n, h in enumerate(hashes + ['FF' * 32, 'aB' * 32, '00' * 20, 'abc', 'zz' * 32]):
             for kind in (self.CHAINS if n < 12 else (self.CHAINS[n % len(self.CHAINS)],)):
                 if mine():
@@ -566,7 +571,16 @@ class C19(Prop):
         if op == 'c19.lx':
             return guarded(lambda: self.core.lx(a[0]).hex())
         if op == 'c19.unhex':
-            return guarded(lambda: self.R.unhexlify_str(a[0]).hex())
+            def f():
+                b = self.R.unhexlify_str(a[0])
+                return b.hex() if self.core.x(a[0]) == b else 'x-differs-from-unhexlify_str'
+            return guarded(f)
+        if op == 'c19.hex':
+            def f():
+                b = bytes.fromhex(a[0])
+                s = self.R.hexlify_str(b)
+                return s if self.core.b2x(b) == s else 'b2x-differs-from-hexlify_str'
+            return guarded(f)
         if op == 'c19.b2lx':
             return guarded(lambda: self.core.b2lx(bytes.fromhex(a[0])))
         if op == 'c19.chain':
